@@ -503,7 +503,18 @@ pub async fn pools_scenario(nl: usize, nd: usize, grace_s: u64, seed_is_member: 
         }
     };
     let lives: Vec<WId> = (0..nl).map(|i| WId { node_id: format!("live{i}"), generation: 0, addr: addr(30_010 + i as u16) }).collect();
-    let deads: Vec<WId> = (0..nd).map(|i| WId { node_id: format!("dead{i}"), generation: 0, addr: if seed_is_member && i == 0 { seed_addr } else { addr(30_020 + i as u16) } }).collect();
+    // when the seed is no member, the LAST silent peer of larger scenarios is another incarnation of the node itself: same
+    // node id and address, another generation (what peers still advertise after a restart)
+    let self_namesake = !seed_is_member && nd >= 3;
+    let deads: Vec<WId> = (0..nd)
+        .map(|i| {
+            if self_namesake && i == nd - 1 {
+                WId { node_id: "srv30000".to_string(), generation: 7, addr: self_addr }
+            } else {
+                WId { node_id: format!("dead{i}"), generation: 0, addr: if seed_is_member && i == 0 { seed_addr } else { addr(30_020 + i as u16) } }
+            }
+        })
+        .collect();
     tokio::time::sleep(Duration::from_millis(500)).await;
     let horizon = grace_s + 45;
     let mut hbv = 1u64;
@@ -555,7 +566,8 @@ pub async fn pools_scenario(nl: usize, nd: usize, grace_s: u64, seed_is_member: 
         if failing_sends && (8..16).contains(&k) {
             out.c.inc("server_rounds_with_failing_sends");
         }
-        if dests.contains(&self_addr) || dests.iter().any(|d| !peers.contains(d) && !seeds.contains(d)) {
+        // (the node's own address is a legitimate target only when a known member — another incarnation — sits there)
+        if (dests.contains(&self_addr) && !peers.contains(&self_addr)) || dests.iter().any(|d| !peers.contains(d) && !seeds.contains(d)) {
             out.findings.push(Finding::new(&["C17"], "pools.foreign_target", format!("{ctx}: a target is the node itself or in none of the pools")));
         }
         if dests.len() > 5 {
